@@ -24,12 +24,23 @@ func (pt *WgCounter) Count() int {
 }
 
 func (pt *WgCounter) Done() {
-	if pt.count.Load() == 0 {
-		return
-	}
+	pt.Release()
+}
 
-	pt.count.Add(^uint32(0))
-	pt.wg.Done()
+// Release decrements the counter like Done and reports whether this call
+// released the last pending item. Exactly one caller observes true.
+func (pt *WgCounter) Release() bool {
+	for {
+		c := pt.count.Load()
+		if c == 0 {
+			return false
+		}
+
+		if pt.count.CompareAndSwap(c, c-1) {
+			pt.wg.Done()
+			return c == 1
+		}
+	}
 }
 
 func (pt *WgCounter) Wait() {
